@@ -1454,6 +1454,7 @@ pub fn amplify_sites(fx: &Fixture, parts: &mut Parts, n: u32) -> Vec<Vec<StoredF
                     if let Some(gt) = data[m..].iter().position(|c| *c == b'>') {
                         out.push(vec![zp("xl/sharedStrings.xml", Edit::Repeat { off: m + gt + 1, pattern: b"&amp;".to_vec(), count: n, start: 0, step: 0, le: vec![] }, format!("xml:entity-flood xl/sharedStrings.xml first <t> starts with {} entity references", n))]);
                         out.push(vec![zp("xl/sharedStrings.xml", Edit::Repeat { off: m, pattern: b"<r><t>x</t></r><rPh><t>y</t></rPh>".to_vec(), count: n, start: 0, step: 0, le: vec![] }, format!("xml:child-flood xl/sharedStrings.xml first string item given {} rich-text and phonetic runs", n))]);
+                        out.push(vec![zp("xl/sharedStrings.xml", Edit::Repeat { off: m, pattern: b"<r><t>0123456789abcdef0123456789abcdef</t></r>".to_vec(), count: n, start: 0, step: 0, le: vec![] }, format!("xml:child-flood xl/sharedStrings.xml first string item given {} rich-text runs of 32 characters", n))]);
                     }
                 }
             }
@@ -1484,6 +1485,7 @@ pub fn amplify_sites(fx: &Fixture, parts: &mut Parts, n: u32) -> Vec<Vec<StoredF
                     let at = m + b"<text:p>".len();
                     out.push(vec![zp("content.xml", Edit::Repeat { off: at, pattern: b"&amp;".to_vec(), count: n, start: 0, step: 0, le: vec![] }, format!("xml:entity-flood content.xml first <text:p> starts with {} entity references", n))]);
                     out.push(vec![zp("content.xml", Edit::Repeat { off: at, pattern: b"<text:span>a</text:span><text:s/>".to_vec(), count: n, start: 0, step: 0, le: vec![] }, format!("xml:child-flood content.xml first <text:p> given {} spans and spaces", n))]);
+                    out.push(vec![zp("content.xml", Edit::Repeat { off: at, pattern: b"<text:span>0123456789abcdef0123456789abcdef</text:span>".to_vec(), count: n, start: 0, step: 0, le: vec![] }, format!("xml:child-flood content.xml first <text:p> given {} spans of 32 characters", n))]);
                     out.push(vec![
                         zp("content.xml", Edit::Repeat { off: at, pattern: b"</text:span>".to_vec(), count: n, start: 0, step: 0, le: vec![] }, "xml:nest-flood (closing tags)".into()),
                         zp("content.xml", Edit::Repeat { off: at, pattern: b"<text:span>".to_vec(), count: n, start: 0, step: 0, le: vec![] }, format!("xml:nest-flood content.xml first <text:p> holds {} nested spans", n)),
@@ -1556,8 +1558,15 @@ pub fn amplify_sites(fx: &Fixture, parts: &mut Parts, n: u32) -> Vec<Vec<StoredF
                     if e.typ != 2 || !(e.name == "Workbook" || e.name == "Book") || s.is_empty() {
                         continue;
                     }
-                    // after the first worksheet DIMENSIONS record
-                    if let Some(r) = biff_records(s).into_iter().find(|r| r.typ == 0x0200) {
+                    // a long stream: the workbook followed by zero sectors (one chain of many sectors)
+                    out.push(vec![StoredFault {
+                        layer: Layer::CfbStream { stream: e.name.clone() },
+                        edit: Some(Edit::Repeat { off: s.len(), pattern: vec![0u8; 512], count: n.min(16000), start: 0, step: 0, le: vec![] }),
+                        why: format!("cfb:stream-pad {} followed by {} sectors of zeros", e.name, n.min(16000)),
+                    }]);
+                    // after the DIMENSIONS record of the *last* worksheet: the BoundSheet records hold
+                    // absolute stream positions, and an insertion before another sheet would misplace it
+                    if let Some(r) = biff_records(s).into_iter().filter(|r| r.typ == 0x0200).last() {
                         let at = r.off + r.hdr + r.len;
                         let mut pat = vec![0x03u8, 0x02, 14, 0];
                         pat.extend_from_slice(&[0u8; 6]);
@@ -1568,6 +1577,39 @@ pub fn amplify_sites(fx: &Fixture, parts: &mut Parts, n: u32) -> Vec<Vec<StoredF
                                 layer: Layer::CfbStream { stream: e.name.clone() },
                                 edit: Some(Edit::Repeat { off: at, pattern: pat.clone(), count: cnt, start, step, le: vec![(4, 2)] }),
                                 why: format!("biff:amplify {} {} generated NUMBER records, {}", e.name, cnt, what),
+                            }]);
+                        }
+                        // the other cell record types, one row each (the row number is the counter)
+                        let rec = |typ: u16, body: &[u8]| -> Vec<u8> {
+                            let mut v = typ.to_le_bytes().to_vec();
+                            v.extend_from_slice(&(body.len() as u16).to_le_bytes());
+                            v.extend_from_slice(body);
+                            v
+                        };
+                        let mut formula = vec![0u8; 6];
+                        formula.extend_from_slice(&[0x00, 0, 0, 0, 0, 0, 0xFF, 0xFF]); // the value is a string, in the next record
+                        formula.extend_from_slice(&[0, 0, 0, 0, 0, 0]); // flags, chn
+                        formula.extend_from_slice(&[3, 0, 0x1E, 1, 0]); // cce, PtgInt 1
+                        let mut pair = rec(0x0006, &formula);
+                        pair.extend_from_slice(&rec(0x0207, &[3, 0, 0, b'a', b'b', b'c']));
+                        let kinds: Vec<(&str, Vec<u8>)> = vec![
+                            ("RK", rec(0x027E, &[0, 0, 0, 0, 0, 0, 0x00, 0x00, 0xF0, 0x3F])),
+                            ("BOOLERR", rec(0x0205, &[0, 0, 0, 0, 0, 0, 1, 0])),
+                            ("LABELSST", rec(0x00FD, &[0, 0, 0, 0, 0, 0, 0, 0, 0, 0])),
+                            ("LABEL", rec(0x0204, &[0, 0, 0, 0, 0, 0, 3, 0, 0, b'x', b'y', b'z'])),
+                            ("FORMULA + STRING", pair),
+                            ("MULRK", rec(0x00BD, &[0, 0, 0, 0, 0, 0, 0x00, 0x00, 0xF0, 0x3F, 0, 0, 0x00, 0x00, 0xF0, 0x3F, 1, 0])),
+                            ("MERGECELLS", {
+                                // rows of the one range are written by the counter too (offsets 6 and 8 of the record)
+                                rec(0x00E5, &[1, 0, 0, 0, 0, 0, 0, 0, 1, 0])
+                            }),
+                        ];
+                        for (name, pat) in kinds {
+                            let le = if name == "MERGECELLS" { vec![(6u16, 2u8), (8, 2)] } else { vec![(4, 2)] };
+                            out.push(vec![StoredFault {
+                                layer: Layer::CfbStream { stream: e.name.clone() },
+                                edit: Some(Edit::Repeat { off: at, pattern: pat, count: cnt, start: 0, step: 1, le }),
+                                why: format!("biff:amplify {} {} generated {} records", e.name, cnt, name),
                             }]);
                         }
                     }
